@@ -104,6 +104,13 @@ func runCheck(id, tier string, updateBaseline bool, only string) int {
 		rqShortPkgs[strings.ReplaceAll(strings.TrimPrefix(p, "./"), "/", ".")] = true
 	}
 	prog, err := LoadProg(repoDir(), cfg.Packages, specs)
+	prof := func(what string) {
+		if os.Getenv("GOVC_PROFILE") != "" {
+			fmt.Fprintf(os.Stderr, "govc: profile: %s at %.1fs\n", what, time.Since(t0).Seconds())
+		}
+	}
+	prof("loaded")
+	defer prof("done")
 	if err != nil {
 		fmt.Fprintf(os.Stderr, "govc: load failed: %v\n", err)
 		// A tree that does not compile is not a property violation; report as machinery error.
@@ -160,6 +167,15 @@ func runCheck(id, tier string, updateBaseline bool, only string) int {
 		res.obls = append(res.obls, obls...)
 		res.machineErr = append(res.machineErr, errs...)
 	}
+	for _, so := range prog.StableObligations() {
+		o := &Obligation{Name: so.Name, Kind: "stable-field", Pos: so.Pos, Src: so.Msg, Static: true, Goal: TTrue, PC: TTrue}
+		if so.OK {
+			o.Result = SolverResult{Status: "unsat", Solver: "syntactic scan"}
+		} else {
+			o.Result = SolverResult{Status: "sat", Solver: "syntactic scan", Raw: so.Msg, Model: so.Msg}
+		}
+		res.obls = append(res.obls, o)
+	}
 	sort.Slice(res.obls, func(i, j int) bool { return res.obls[i].Name < res.obls[j].Name })
 	// discharge
 	timeout := 10
@@ -182,6 +198,9 @@ func runCheck(id, tier string, updateBaseline bool, only string) int {
 		go func() {
 			defer wg.Done()
 			defer func() { <-osem }()
+			if o.Static {
+				return
+			}
 			q := o.Query()
 			if o.Cover {
 				o.Result = runSolversCover(q, 5)
